@@ -49,7 +49,13 @@ def run(hist, transport, path):
                 ua = []
                 for k in range(c["n"]):
                     sb = bytearray(18)
-                    sb[0], sb[2], sb[7], sb[12], sb[13] = 0x70, 6, 10, [0x29, 0x2A, 0x3F][k % 3], [0x00, 0x01, 0x0E][k % 3]
+                    # unit attentions, and a DEFERRED error (response code 71h) with sense key RECOVERED ERROR: SPC-4 4.5.7 — the command it
+                    # is reported on was terminated and has NOT been performed, whatever the sense key says
+                    kind = (k + c.get("kind", 0)) % 4
+                    if kind == 3:
+                        sb[0], sb[2], sb[7], sb[12], sb[13] = 0x71, 1, 10, 0x0C, 0x01
+                    else:
+                        sb[0], sb[2], sb[7], sb[12], sb[13] = 0x70, 6, 10, [0x29, 0x2A, 0x3F][kind], [0x00, 0x01, 0x0E][kind]
                     ua.append(bytes(sb))
                 tgt.ua += ua
                 res.append(dict(ua=c["n"], cdbs=[]))
